@@ -10,6 +10,8 @@ namespace Scales.ServerSet
 structure Obs where
   bad : Bool               -- the operation was not enabled / its label not a legal choice
   notes : List Note        -- on_join / on_leave calls made during this operation, in order
+  mkeys : List Nat         -- the Member handed to each of these calls (its key: what `Member.__eq__`
+                           -- compares), same order
   errs : Nat               -- how many of them raised
   quiet : Bool             -- nothing on its way (no fired event, empty queue, idle worker)
   -- internal state, compared for the correspondence only (the specification ignores it)
@@ -31,7 +33,7 @@ def insertSorted (x : Nat) : List Nat → List Nat
 def sortNats (xs : List Nat) : List Nat := xs.foldr insertSorted []
 
 def obsOf (cfg : Cfg) (bad : Bool) (ns : List Note) (s : St) : Obs :=
-  { bad := bad, notes := ns, errs := (ns.filter (raises cfg)).length, quiet := s.quiet,
+  { bad := bad, notes := ns, mkeys := ns.map (fun e => cfg.keyOf e.2), errs := (ns.filter (raises cfg)).length, quiet := s.quiet,
     nodes := sortNats s.nodes, members := s.members, qlen := s.queue.length,
     watching := s.watched.isSome, pending := s.pending.map (fun e => e == Ev.data), dw := s.dw,
     cw := s.cw.length,
@@ -53,7 +55,8 @@ def encOptNat : Option Nat → V
   | none => .a "none"
 
 def decCfg : List V → Option Cfg
-  | [lim, rj, rl] => do pure ⟨← lim.nat?, ← rj.natList?, ← rl.natList?⟩
+  | [lim, rj, rl] => do pure ⟨← lim.nat?, ← rj.natList?, ← rl.natList?, []⟩
+  | [lim, rj, rl, keys] => do pure ⟨← lim.nat?, ← rj.natList?, ← rl.natList?, ← keys.natList?⟩
   | _ => none
 
 def decOp : List V → Option Op
@@ -90,13 +93,13 @@ def decRd : V → Option (Option Rd)
   | _ => none
 
 def encObs (o : Obs) : V :=
-  .l [V.ofBool o.bad, .l (o.notes.map encNote), V.ofNat o.errs, V.ofBool o.quiet,
+  .l [V.ofBool o.bad, .l (o.notes.map encNote), V.ofNats o.mkeys, V.ofNat o.errs, V.ofBool o.quiet,
       V.ofNats o.nodes, V.ofNats o.members, V.ofNat o.qlen, V.ofBool o.watching,
       .l (o.pending.map encEv), V.ofBool o.dw, V.ofNat o.cw, encRd o.reading, V.ofNat o.raised]
 
 def decObs : V → Option Obs
-  | .l [bad, .l notes, errs, quiet, nodes, members, qlen, watching, .l pending, dw, cw, reading, raised] => do
-    pure { bad := ← bad.bool?, notes := ← notes.mapM decNote, errs := ← errs.nat?,
+  | .l [bad, .l notes, mkeys, errs, quiet, nodes, members, qlen, watching, .l pending, dw, cw, reading, raised] => do
+    pure { bad := ← bad.bool?, notes := ← notes.mapM decNote, mkeys := ← mkeys.natList?, errs := ← errs.nat?,
            quiet := ← quiet.bool?, nodes := ← nodes.natList?, members := ← members.natList?,
            qlen := ← qlen.nat?, watching := ← watching.bool?, pending := ← pending.mapM decEv,
            dw := ← dw.bool?, cw := ← cw.nat?, reading := ← decRd reading, raised := ← raised.nat? }
@@ -111,7 +114,19 @@ def decObs : V → Option Obs
     * `missing` / `stale`: whenever nothing is on its way, the consumer holds every member
       present, and nothing else.
   "An error in one callback does not stop later notifications" is the `missing`/`stale`
-  clause on histories whose callbacks raise. -/
+  clause on histories whose callbacks raise.
+
+  The same two demands are made of the membership as a consumer sees it that identifies members
+  by `Member.__eq__` (endpoints, status, shard — not the znode name), as `LoadBalancerSink`
+  does: a server that re-registers under a new znode is, to such a consumer, the same member.
+    * `member-join-twice` / `member-leave-unknown`: no join of a Member equal to one the consumer
+      holds, no leave of a Member equal to none it holds;
+    * `member-missing` / `member-stale`: whenever nothing is on its way, the Members the
+      consumer holds are those of the znodes present.
+  These are judged on the Members actually handed to the callbacks (`Obs.mkeys`), and only
+  as long as the history never had two member znodes with equal Members *at the same time*:
+  there the text does not say what such a consumer should hold (one member or two?), so nothing
+  is demanded from then on (`dist`). -/
 
 def specTree (t : Tree) : Op → Tree
   | .tree o => if t.legal o then t.apply o else t
@@ -136,19 +151,53 @@ def viewVerdict (idx : Nat) (view present : List Nat) : Verdict :=
     | some n => .fail "stale" [V.ofNat idx, V.ofNat n]
     | none => .ok
 
-def specGo (cfg : Cfg) (t : Tree) (view : List Nat) (idx : Nat) : List (Op × Obs) → Verdict
+/-- the same, for the Members a consumer holds that goes by `Member.__eq__` -/
+def viewVerdictK (idx : Nat) (kview present : List Nat) : Verdict :=
+  match firstNotIn present kview with
+  | some k => .fail "member-missing" [V.ofNat idx, V.ofNat k]
+  | none =>
+    match firstNotIn kview present with
+    | some k => .fail "member-stale" [V.ofNat idx, V.ofNat k]
+    | none => .ok
+
+def distinctB : List Nat → Bool
+  | [] => true
+  | x :: xs => !xs.contains x && distinctB xs
+
+/-- no two member znodes of the tree carry equal Members -/
+def keyDistinct (cfg : Cfg) (t : Tree) : Bool :=
+  distinctB ((t.kids.filter cfg.memberOk).map cfg.keyOf)
+
+/-- the notifications of one operation with the Members that were handed over -/
+def keyedNotes (o : Obs) : List Note := List.zipWith (fun e k => (e.1, k)) o.notes o.mkeys
+
+/-- `view`: znode names held by a consumer that goes by name; `kview`: Members (keys) held by a
+    consumer that goes by `Member.__eq__`; `dist`: no two member znodes with equal Members
+    have existed at the same time so far -/
+def specGo (cfg : Cfg) (t : Tree) (view kview : List Nat) (dist : Bool) (idx : Nat) :
+    List (Op × Obs) → Verdict
   | [] => .ok
   | (op, o) :: rest =>
     let t' := specTree t op
+    let dist' := dist && keyDistinct cfg t'
     match firstBad view o.notes with
     | some e => .fail (if e.1 then "join-twice" else "leave-unknown") [V.ofNat idx, V.ofNat e.2]
     | none =>
       let view' := viewOf view o.notes
-      match (if o.quiet then viewVerdict idx view' (t'.present cfg.lim) else .ok) with
-      | .ok => specGo cfg t' view' (idx + 1) rest
-      | f => f
+      match (if dist' then firstBad kview (keyedNotes o) else none) with
+      | some e =>
+        .fail (if e.1 then "member-join-twice" else "member-leave-unknown") [V.ofNat idx, V.ofNat e.2]
+      | none =>
+        let kview' := viewOf kview (keyedNotes o)
+        match (if o.quiet then viewVerdict idx view' (t'.present cfg.lim) else .ok) with
+        | .ok =>
+          match (if o.quiet && dist' then
+                   viewVerdictK idx kview' ((t'.present cfg.lim).map cfg.keyOf) else .ok) with
+          | .ok => specGo cfg t' view' kview' dist' (idx + 1) rest
+          | f => f
+        | f => f
 
-def spec (cfg : Cfg) (h : List (Op × Obs)) : Verdict := specGo cfg Tree.init [] 0 h
+def spec (cfg : Cfg) (h : List (Op × Obs)) : Verdict := specGo cfg Tree.init [] [] true 0 h
 
 /-! ### hypotheses
 
@@ -164,6 +213,12 @@ def wfGo (cfg : Cfg) : St → List Op → Bool
     | none => false
 
 def wf (cfg : Cfg) (ops : List Op) : Bool := wfGo cfg St.init ops
+
+/-- hypothesis of the Member-equality theorems (the specification computes it along the history
+    as `dist`): after none of the operations do two member znodes carry equal Members -/
+def distinctAlong (cfg : Cfg) : Tree → List Op → Bool
+  | _, [] => true
+  | t, op :: ops => keyDistinct cfg (specTree t op) && distinctAlong cfg (specTree t op) ops
 
 def comp : TComp Cfg St Op Obs where
   decCfg := decCfg
@@ -182,6 +237,12 @@ def recreateUnobservedOps : List Op :=
   [.tree .createParent, .tree (.createChild 0), .start (some 0), .serve, .ret none,
    .tree (.deleteChild 0), .tree .deleteParent, .deliver none, .tree .createParent,
    .tree (.createChild 1), .deliver (some 1), .serve, .ret none]
+
+/-- a server restarts: its znode 0 goes, it re-registers as znode 1 with an equal Member, and
+    the client learns of both in one children update (with `keys := [0, 0]`) -/
+def restartOps : List Op :=
+  [.tree .createParent, .tree (.createChild 0), .start (some 0), .serve, .ret none,
+   .tree (.deleteChild 0), .tree (.createChild 1), .deliver (some 1), .serve, .ret none]
 
 /-- three members, the path torn down while a read is in flight, re-created with an old name -/
 def demoOps : List Op :=
